@@ -666,7 +666,17 @@ class _Timeout(BaseException):
     pass
 
 
+_alarms = [0]
+
+
 def _alarm(signum, frame):
+    # the executed code may swallow the exception (bare except in a loop): the timer
+    # re-fires every 0.3 s; after ~6 s of that the worker gives up and exits, the pool
+    # restarts it and the case is counted inconclusive
+    _alarms[0] += 1
+    if _alarms[0] > 14:
+        import os
+        os._exit(3)
     raise _Timeout()
 
 
@@ -689,6 +699,7 @@ def _run(code, filename):
     exc = None
     old_limit = sys.getrecursionlimit()
     sys.setrecursionlimit(200)
+    _alarms[0] = 0
     signal.signal(signal.SIGALRM, _alarm)
     signal.setitimer(signal.ITIMER_REAL, 2.0, 0.3)
     timed_out = False
